@@ -173,6 +173,9 @@ fn("hypercorn.app_wrappers:_build_environ", params={"scope": SCOPE, "body": "byt
        # C17.environ: method, script name / path info split by root_path, query string, protocol, scheme, input
        ("C17.environ.request-line", "result['REQUEST_METHOD'] == scope['method'] and result['SCRIPT_NAME'] == scope['root_path'] "
         "and result['QUERY_STRING'] == latin1(scope['query_string']) and result['SERVER_PROTOCOL'] == 'HTTP/' + scope['http_version'] and result['wsgi.url_scheme'] == scope['scheme']", "C17"),
+       # PEP 3333: PATH_INFO is empty or starts with "/" -- the request path is split at root_path
+       # on a segment boundary ("/application/x" is not under the root "/app")
+       ("C17.environ.path-rooted", "result['PATH_INFO'] == '' or result['PATH_INFO'].startswith('/')", "C17"),
        ("C17.environ.path-info", "scope['path'].startswith(scope['root_path']) and result['PATH_INFO'] == (scope['path'][len(scope['root_path']):] if scope['path'] != scope['root_path'] else '/')", "C17"),
        ("C17.environ.input", "result['wsgi.input'].content == body and not result['wsgi.input'].is_text", "C17"),
    ],
